@@ -306,6 +306,7 @@ impl SharedShape {
         }
 
         // Apply this property.
+        let key_property = key.property_key.clone();
         base = base.insert_property_transition(key);
 
         // Apply previous properties.
@@ -316,6 +317,7 @@ impl SharedShape {
             };
             base = base.insert_property_transition(transition);
         }
+        base = base.restore_attributes_from(self, &key_property);
 
         // Determine action to be performed on the storage.
         let action = if slot.attributes.is_accessor_descriptor() {
@@ -330,6 +332,41 @@ impl SharedShape {
             shape: base,
             action,
         }
+    }
+
+    /// Applies the attribute changes of `original` that a chain rebuilt after
+    /// [`Self::rollback_before`] doesn't contain.
+    ///
+    /// A shape created by an attribute change doesn't record which property was changed (its
+    /// [`Self::property`] is the last property of the table), so the rollback only sees such a
+    /// change when it was made to the last property.
+    fn restore_attributes_from(mut self, original: &Self, skip: &PropertyKey) -> Self {
+        let properties: Vec<(PropertyKey, Slot)> = {
+            let table = original.property_table().inner().borrow();
+            table
+                .keys
+                .iter()
+                .take(original.property_count() as usize)
+                .cloned()
+                .collect()
+        };
+        for (property_key, slot) in properties {
+            if &property_key == skip {
+                continue;
+            }
+            if let Some(current) = self.lookup(&property_key)
+                && current.attributes != slot.attributes
+                && current.attributes.width_match(slot.attributes)
+            {
+                self = self
+                    .change_attributes_transition(TransitionKey {
+                        property_key,
+                        attributes: slot.attributes,
+                    })
+                    .shape;
+            }
+        }
+        self
     }
 
     /// Rollback to shape before the insertion of the [`PropertyKey`] that is provided.
@@ -429,7 +466,7 @@ impl SharedShape {
             base = base.insert_property_transition(transition);
         }
 
-        base
+        base.restore_attributes_from(self, key)
     }
 
     /// Do a property lookup, returns [`None`] if property not found.
